@@ -43,7 +43,8 @@ fn health(acc: &Acc, _t: Tier) -> Vec<String> {
             ("err:InvalidJumpTarget", 200),
             ("err:NonExistentJumpTarget", 200),
             ("err:NoConcreteJumpDestination", 50),
-            ("err:GasLimitExceeded", 50),
+            ("err:GasLimitExceeded", 500),
+            ("r4-gas-error-expected", 500),
             ("strict-ok", 200),
             ("r4-compared", 1000),
             ("mixed-jump-and-other-errors", 50),
@@ -168,7 +169,7 @@ pub fn check(code: &[u8], gas_limit: usize, acc: &mut Acc) -> CaseResult {
         code,
         &RefCfg {
             gas_of: &gas_of,
-            gas_limit: u64::MAX,
+            gas_limit: gas_limit as u64,
             visit_limit: 1,
             max_paths: 3_000,
             max_steps: 600_000,
@@ -177,11 +178,12 @@ pub fn check(code: &[u8], gas_limit: usize, acc: &mut Acc) -> CaseResult {
     );
     let loop_free = rr.complete && rr.paths.iter().all(|p| !matches!(p.end, End::Budget));
     if loop_free {
-        let max_gas = rr.paths.iter().map(|p| p.gas).max().unwrap_or(0);
-        let gas_far_below = max_gas * 2 + 5_000 < gas_limit as u64;
         // expected (class, offset) multiset
         let mut want: BTreeMap<(&'static str, u32), usize> = BTreeMap::new();
         for p in &rr.paths {
+            if let Some(at) = p.gas_error_at {
+                *want.entry(("gas", at as u32)).or_default() += 1;
+            }
             if let End::Error(k) = p.end {
                 // a JUMP with a symbolic target ends the path silently (documented subject behaviour)
                 if !(k == ErrKind::JumpSymbolic && code[p.end_offset] == 0x56) {
@@ -189,10 +191,7 @@ pub fn check(code: &[u8], gas_limit: usize, acc: &mut Acc) -> CaseResult {
                 }
             }
         }
-        // JUMPI soft errors: one per execution of the JUMPI on any path; the fall-through continues
-        // and shares its prefix with nobody, so count distinct (path, offset) occurrences — but the
-        // same JUMPI instance is executed by exactly one thread, while reference paths that forked
-        // *later* each replay it. Count an occurrence once per distinct prefix.
+        // JUMPI soft errors: one per occurrence (paths forked afterwards share the event)
         let mut seen_soft = std::collections::BTreeSet::new();
         for p in &rr.paths {
             for (k, at, event) in &p.soft_errors {
@@ -201,37 +200,26 @@ pub fn check(code: &[u8], gas_limit: usize, acc: &mut Acc) -> CaseResult {
                 }
             }
         }
-        // hard errors of paths likewise share prefixes only if they are the same thread: a path that
-        // ends in an error is unique by construction.
-        if gas_far_below {
-            acc.label("r4-compared");
-            let mut got: BTreeMap<(&'static str, u32), usize> = BTreeMap::new();
-            for (k, loc) in &all_s {
-                *got.entry((class_of(k), *loc)).or_default() += 1;
-            }
-            if got != want {
-                let missing: Vec<_> = want.iter().filter(|(k, n)| got.get(*k).copied().unwrap_or(0) < **n).collect();
-                let extra: Vec<_> = got.iter().filter(|(k, n)| want.get(*k).copied().unwrap_or(0) < **n).collect();
-                let what = if let Some(((c, _), _)) = missing.first() {
-                    format!("a {c} error the EVM raises is not listed")
-                } else if let Some(((c, _), _)) = extra.first() {
-                    format!("a {c} error is listed that the EVM does not raise")
-                } else {
-                    "error multiplicities differ".into()
-                };
-                return fail(
-                    format!("strict mode's error list differs from the EVM's errors: {what}"),
-                    format!("subject {got:?}\nreference {want:?}"),
-                );
-            }
-        } else if rr.paths.iter().map(|p| p.gas).min().unwrap_or(0) > (gas_limit as u64) * 2 + 5_000 {
-            // every path runs far past the limit: a gas error must be listed
-            if !all_s.iter().any(|(k, _)| k == "GasLimitExceeded") {
-                return fail(
-                    "gas exhaustion is not reported although every path exceeds the limit many times over".into(),
-                    format!("gas limit {gas_limit}, cheapest reference path {}", rr.paths.iter().map(|p| p.gas).min().unwrap_or(0)),
-                );
-            }
+        acc.label("r4-compared");
+        acc.label_if(want.keys().any(|(c, _)| *c == "gas"), "r4-gas-error-expected");
+        let mut got: BTreeMap<(&'static str, u32), usize> = BTreeMap::new();
+        for (k, loc) in &all_s {
+            *got.entry((class_of(k), *loc)).or_default() += 1;
+        }
+        if got != want {
+            let missing: Vec<_> = want.iter().filter(|(k, n)| got.get(*k).copied().unwrap_or(0) < **n).collect();
+            let extra: Vec<_> = got.iter().filter(|(k, n)| want.get(*k).copied().unwrap_or(0) < **n).collect();
+            let what = if let Some(((c, at), _)) = missing.first() {
+                format!("a {c} error the EVM raises is not listed (at opcode {:#04x})", code[*at as usize])
+            } else if let Some(((c, _), _)) = extra.first() {
+                format!("a {c} error is listed that the EVM does not raise")
+            } else {
+                "error multiplicities differ".into()
+            };
+            return fail(
+                format!("strict mode's error list differs from the EVM's errors: {what}"),
+                format!("subject {got:?}\nreference {want:?}"),
+            );
         }
     }
 
@@ -310,8 +298,47 @@ fn run_shard(ctx: &ShardCtx, acc: &mut Acc) {
                 max_blocks: 7,
             },
         );
-        let gas_limit = *ch.pick(&[VmCfg::default().gas_limit, VmCfg::default().gas_limit, 300, 150, 2_000, 100_000]);
         let code = p.b.code();
+        let default_gas = VmCfg::default().gas_limit;
+        let gas_limit = if ch.chance(1, 2) {
+            default_gas
+        } else {
+            // aim at the cumulative minimum gas of some reference path after some instruction, +-1
+            let table = subj::gas_table(&code).unwrap_or_default();
+            let gas_of = |i: usize| table.get(i).copied().unwrap_or(0);
+            let rr = evmref::run(
+                &code,
+                &RefCfg {
+                    gas_of: &gas_of,
+                    gas_limit: u64::MAX,
+                    visit_limit: 1,
+                    max_paths: 200,
+                    max_steps: 50_000,
+                    selfdestruct_halts: true,
+                },
+            );
+            let mut sums: Vec<u64> = vec![];
+            for p in &rr.paths {
+                let mut g = 0u64;
+                for o in &p.executed {
+                    g += gas_of(*o);
+                    sums.push(g);
+                }
+            }
+            sums.sort();
+            sums.dedup();
+            if sums.is_empty() {
+                300
+            } else {
+                let v = *ch.pick(&sums);
+                (match ch.below(3) {
+                    0 => v,
+                    1 => v.saturating_sub(1),
+                    _ => v + 1,
+                })
+                .max(1) as usize
+            }
+        };
         acc.sample(|| json!({ "bytes": hex::encode(&code[..code.len().min(200)]), "len": code.len(), "gas_limit": gas_limit, "features": p.features, "asm": asm::disasm(&code[..code.len().min(120)]) }));
         check(&code, gas_limit, acc)
     });
